@@ -7,8 +7,10 @@ from vk import refmodel as rm
 
 ID = 'C10'
 LEVEL = 'exploration'
-RULE = ('Hypothesis draws a client/server pair of the same kind (threaded Client + Server under the '
-        'baton scheduler, AsyncClient + AsyncServer on the virtual-time loop), the client transport '
+RULE = ('Hypothesis draws one of the 2x2 client/server pairs (threaded Client or AsyncClient against '
+        'the threaded Server or the AsyncServer; same-kind pairs in their native world, cross-kind '
+        'pairs in a hybrid world where the baton scheduler and the virtual-time loop share one '
+        'clock), the client transport '
         'list ([polling], [websocket], default = polling then upgrade), heartbeat settings, handler '
         'dispatch mode and a conversation: bursts of 1..40 sends in either direction with text / '
         'JSON / binary payloads, sends from inside the client connect handler (queued across the '
@@ -21,8 +23,8 @@ RULE = ('Hypothesis draws a client/server pair of the same kind (threaded Client
         'of the case.')
 ASSUMPTIONS = ['same kernel assumptions as C03', 'fake requests / websocket-client / aiohttp session '
                'objects follow the documented contracts of those libraries',
-               'cross-kind pairs (threaded client with asyncio server and vice versa) are not '
-               'exercised: the hybrid world was not built']
+               'cross-kind pairs run in a hybrid world (vk/clientworld.Composite): the harness thread '
+               'alternates between the scheduler and the loop until both are quiet']
 
 
 def V(impl, clause, trigger, detail, case):
@@ -38,6 +40,7 @@ payload_st = st.one_of(
 @st.composite
 def case_st(draw):
     impl = draw(st.sampled_from(['thread', 'async']))
+    server = draw(st.sampled_from(['same', 'same', 'other']))
     transports = draw(st.sampled_from([None, None, ['polling'], ['websocket']]))
     I = draw(st.sampled_from([1, 2.5, 5, 25]))
     T = draw(st.sampled_from([1, 2.5, 5, 20]))
@@ -61,7 +64,7 @@ def case_st(draw):
     end = draw(st.sampled_from(['client', 'server', 'none']))
     pre = draw(st.sampled_from([0, 0, 0, 1, 3, 17]))
     greets = draw(st.sampled_from([0, 0, 0, 1, 3]))
-    return {'impl': impl, 'transports': transports, 'I': I, 'T': T,
+    return {'impl': impl, 'server': server, 'transports': transports, 'I': I, 'T': T,
             'async_handlers': draw(st.booleans()), 'steps': steps, 'end': end,
             'send_in_connect': pre, 'server_greets': greets}
 
@@ -78,11 +81,15 @@ def tagged(side, seq, p):
 
 
 def check_case(case, ctx=None, idle_scale=1.0):
-    impl = case['impl']
+    client_kind = case['impl']
+    server_kind = client_kind if case.get('server', 'same') == 'same' else \
+        ('async' if client_kind == 'thread' else 'thread')
+    impl = client_kind if server_kind == client_kind else '%s-client/%s-server' % (
+        client_kind, server_kind)
     rep = dict(case)
     cfg = {'ping_interval': case['I'], 'ping_timeout': case['T'],
            'async_handlers': case['async_handlers'], 'http_compression': False}
-    h = (TClientHarness if impl == 'thread' else AClientHarness)(cfg)
+    h = (TClientHarness if client_kind == 'thread' else AClientHarness)(cfg, server=server_kind)
     I, T = case['I'], case['T']
     csent, ssent = [], []
     greets = [tagged('s', 2000 + i, 'greet') for i in range(case.get('server_greets', 0))]
@@ -97,7 +104,7 @@ def check_case(case, ctx=None, idle_scale=1.0):
                 if ev == 'connect':
                     for m in premsgs:
                         csent.append(m)
-                        if impl == 'thread':
+                        if client_kind == 'thread':
                             h.client.send(m)
                         else:
                             h.loop.create_task(h.client.send(m))
@@ -161,7 +168,7 @@ def check_case(case, ctx=None, idle_scale=1.0):
             big = any(len(s.get('msgs', [])) > 16 for s in case['steps'])
             idle = sum(s.get('cycles', 0) for s in case['steps'])
             nt = (big and tr == 'polling') or pre > 0 or idle >= 10
-            cls = [impl, 'transport-' + tr, 'end-' + case['end']]
+            cls = ['pair-' + impl, 'transport-' + tr, 'end-' + case['end']]
             if big:
                 cls.append('burst>16')
             if idle >= 10:
@@ -188,7 +195,7 @@ def check_logs(h, impl, case, csent, ssent, rep, tr):
     got_s = [a for t, e, s_, a in h.world.app_log.events if e == 'message']
     got_c = [a for t, e, a in h.log.events if e == 'message']
     for side, sent, got, ordered in (('client->server', csent, got_s, not case['async_handlers']),
-                                     ('server->client', ssent, got_c, impl == 'async' or True)):
+                                     ('server->client', ssent, got_c, True)):
         exp = [expected_arrival(x) for x in sent]
         if len(got) != len(exp) or not all_match(exp, got, ordered):
             missing = [e for e in exp if not any(rm.jeq(e, g) for g in got)]
